@@ -1,6 +1,8 @@
 """C01 -- compose o parse round trip: reader/writer agreement clauses (DESIGN.md section 4, C01)."""
 from __future__ import annotations
 
+import ast
+
 import json
 import os
 
@@ -179,6 +181,7 @@ def check(ctx, report):
     equality(ctx, report)
     clock_defaults(ctx, report)
     flag_keyed_optionals(ctx, report)
+    truth_valued_fields(ctx, report)
     if 'SslRecord' in reviewed and reviewed['SslRecord'].get('strip_header'):
         # the header left out of the element-wise comparison above
         from .c06 import ssl2_header
@@ -632,3 +635,46 @@ def flag_keyed_optionals(ctx, report, RULE='C01.R12', only=None):
                        'the parser reads %s when `%s`, the composer writes it when `%s`: an object (or a message) on which the two conditions differ '
                        'does not survive the round trip' % (name, show(ca)[:90], show(cb)[:90]))
     report.floor(RULE, 2, 'flag keyed optional parts')
+
+
+# ---- R13: truth values ------------------------------------------------------------------------------------------------------
+
+def truth_valued_fields(ctx, report, RULE='C01.R13'):
+    """a wire octet the parser reads as a truth value (``parse_numeric(..., bool)``) comes back as True / False.  A field that
+    admits any integer (``instance_of(integer_types)``, no converter) holds 2 as happily as 1: composed as 01, read back as True,
+    the object differs from its round trip, and its report says ``2`` (or ``0``) where the parsed one says ``true`` (``false``)."""
+    from ..core import representatives
+    from .c02 import field_source, find_objs
+    from ..values import DictV, ParserV, show
+    report.rule(RULE, 'a field the parser fills with a truth value admits truth values only (bool converter or validator)')
+    for c in representatives(ctx, '_parse'):
+        res = ctx.canon.layout(c, 'parse').result
+        objs = []
+        find_objs(res.value, objs)
+        for o in objs:
+            k = o.cls
+            if not k.has_attrs():
+                continue
+            given = list((o.ctor_args or {}).items())
+            for st in o.star:
+                # cls(**parser) / cls(**dict(parser)): every key of the parser is an argument
+                ps = [st] if isinstance(st, ParserV) else ([x for x in st.star if isinstance(x, ParserV)] if isinstance(st, DictV) else [])
+                for p in ps:
+                    given.extend((key, fv) for key, fv in p.keys.items() if key not in p.deleted)
+            for pname, pv in given:
+                fld = k.field(pname)
+                src = field_source(pv)
+                if fld is None or src is None or src.op.prim != 'parse_numeric':
+                    continue
+                conv = src.op.args.get('converter')
+                if conv is None or 'bool' not in show(conv):
+                    continue
+                report.count(RULE)
+                fconv = ast.unparse(fld.converter_node) if fld.converter_node is not None else ''
+                fval = ast.unparse(fld.validator_node) if fld.validator_node is not None else ''
+                if fconv == 'bool' or ('instance_of(bool)' in fval and 'integer_types' not in fval):
+                    continue
+                report.add(RULE, '%s@truth-value[%s]' % (k.construct, fld.name),
+                           '%s.%s is read from the wire as a truth value but admits %s: an object built with 2 is composed as 01 and read back as True (not equal), and '
+                           'an object built with 0 is reported as 0 where its round trip is reported as false' % (k.name, fld.name, fval or 'anything'))
+    report.floor(RULE, 1, 'truth valued wire fields')
